@@ -40,6 +40,7 @@ class Vec(object):
         self.y = y
         self._mag_set = 0
         self.entered = 0
+        self.ncmp = 0           # comparisons are counted: the owner must be asked every time, also for x == x
 
     def __add__(self, o):
         if isinstance(o, Vec):
@@ -73,12 +74,16 @@ class Vec(object):
         return abs(self.x) + abs(self.y)
 
     def __eq__(self, o):
+        self.ncmp += 1
+        if o is self and self.x == 3:
+            return False        # not reflexive (as NaN, SQL NULL, ...)
         return isinstance(o, Vec) and (self.x, self.y) == (o.x, o.y)
 
     def __ne__(self, o):
         return not self.__eq__(o)
 
     def __lt__(self, o):
+        self.ncmp += 1
         if isinstance(o, Vec):
             return (self.x, self.y) < (o.x, o.y)
         return NotImplemented
@@ -201,7 +206,7 @@ def snapshot(o, depth=0):
     if t is io.BytesIO:
         return ("bytesio", "closed") if o.closed else ("bytesio", o.getvalue(), o.tell())
     if t is Vec:
-        return ("vec", o.x, o.y, o._mag_set, o.entered)
+        return ("vec", o.x, o.y, o._mag_set, o.entered, o.ncmp)
     if t.__name__ == "Dyn" and isinstance(o.__dict__.get("items"), list):
         return ("dyn", snapshot(o.items, depth + 1), tuple(n for n in DYN_NAMES if n in t.__dict__))
     if t is slice:
